@@ -749,8 +749,10 @@ func (x *Exec) checkAtCalls(fr *Frame, st *State, names []string, args []*SV, si
 		env.vars = vars
 		env.scopePos = site.Pos()
 		g := x.evalClauseBool(c, env, st)
-		x.oblige(st, "atcall", c.Label+"@"+text, c.Tags, g, site.Pos())
-		if !x.eng.knownOpen[x.unit.Key+"#atcall["+c.Label+"@"+text+"]"] {
+		// the obligation is named after the clause's site pattern, not after the text of the matched
+		// call: the name must survive a change of the call's arguments
+		x.oblige(st, "atcall", c.Label+"@"+c.Site, c.Tags, g, site.Pos())
+		if !x.eng.knownOpen[x.unit.Key+"#atcall["+c.Label+"@"+c.Site+"]"] {
 			st.assume(g)
 		}
 	}
